@@ -73,6 +73,8 @@ package perio
 //@     assert [nonemissing] forall sd uint64; u uint32 :: sd in perioGroup.urrids && u in perioGroup.urrids[sd] ==>
 //@                         sd in arg0 && (exists j int :: 0 <= j && j < len(arg0[sd]) && arg0[sd][j] == u)
 //@     assert [noneextra]   forall sd uint64; j int :: sd in arg0 && 0 <= j && j < len(arg0[sd]) ==> sd in perioGroup.urrids && arg0[sd][j] in perioGroup.urrids[sd]
+//@   at call delete~e.urrid:
+//@     assert [hit] arg1 == e.urrid && e.urrid in arg0 && e.lSeid in perioGroup.urrids && arg0 == perioGroup.urrids[e.lSeid]
 //@   at call NotifySessReport:
 //@     assert [seid]  arg0.SEID == seid && len(arg0.Reports) == len(usars)
 //@     assert [perio] forall j int :: 0 <= j && j < len(usars) ==> usars[j].USARTrigger.Flags & report.USAR_TRIG_PERIO != 0
